@@ -4,7 +4,7 @@ import json, os, sys
 ROOT = os.path.dirname(os.path.dirname(os.path.abspath(__file__)))
 PY = "/venv/bin/python"
 
-TRUST = ("Trusted base: CPython's ast parser; the checker's own CFG / dominator / reaching-definition engine "
+TRUST = ("Trusted base: CPython's ast parser; the normal forms of DESIGN.md 2.10 (helpers analysed in place, alias propagation, jump threading); the checker's own interpreter over exhaustive finite abstract domains (utverif/absint.py); the checker's own CFG / dominator / reaching-definition engine "
          "(utverif/cfg.py, utverif/lib.py); the frozen knowledge tables named in DESIGN.md 2.5; receiver typing by "
          "method-name uniqueness. utype is never imported or executed. ")
 
@@ -16,7 +16,7 @@ CLAIMS = {
          "parsers is a conversion result unless its definition carries a documented waiver (R01b); in Rule.parse every "
          "path to the final return passes origin transform, element parser and validators loop under their guards, in "
          "order, with results assigned back; early exits are the two accepted shortcuts (R01c); stores into the binding "
-         "results of the lookup strategies and parse_params are parse results (R01d). R01a splits conditional returns into their arms and treats results of foreign parse functions (json.loads, ast.literal_eval) as unconverted input. Round 4: with subclasses admitted every converter return is built by the requested class (R01e); explicitly passed options are recorded whatever their value (R10h, shared).",
+         "results of the lookup strategies and parse_params are parse results (R01d). R01a splits conditional returns into their arms and treats results of foreign parse functions (json.loads, ast.literal_eval) as unconverted input. Round 4: with subclasses admitted every converter return is built by the requested class (R01e); explicitly passed options are recorded whatever their value (R10h, shared). Round 5: defaults that do not waive the guarantee (R01f); R02f and R05i shared.",
     note="Undecided: that each converter's constructor yields a conforming value for every input (value-level), "
          "_parse_decimal arithmetic, user-supplied converters.",
     technique="return-provenance with dominating type-guard facts, typestate (RAW/PARSED) of container stores, "
@@ -28,18 +28,18 @@ CLAIMS = {
          "subscript after a fallen-through range check (R04b); element parsers use only operations every dispatched "
          "container type supports (R04c); every while loop carries a recognised termination argument, numeric shrink "
          "loops a finiteness guard (R04d); the wrapped function / generated __init__ only ever receives the parser's "
-         "result (R04e). Decides the mechanism, not the value-level behaviour. Error constructors / message properties of the ParseError family never format the offending value (R04g); errors are handed to the context the owner flushes (R04f). Round 4: no regular expression the library matches against input text has exponential degree of ambiguity (R04i, automaton product test); an integer is built from an input-parsed Decimal only behind a magnitude bound (R04j); the staged union retries do not restart per nesting level (R18e, shared - known finding F34c: a cyclic mapping does not return).",
+         "result (R04e). Decides the mechanism, not the value-level behaviour. Error constructors / message properties of the ParseError family never format the offending value (R04g); errors are handed to the context the owner flushes (R04f). Round 4: no regular expression the library matches against input text has exponential degree of ambiguity (R04i, automaton product test); an integer is built from an input-parsed Decimal only behind a magnitude bound (R04j); the staged union retries do not restart per nesting level (R18e, shared - known finding F34c: a cyclic mapping does not return). Round 5: the generated __init__ uses its positional argument only under an isinstance test (R04k).",
     note="Undecided: RecursionError by input depth (bounded only through C18), unbounded input iterators, exceptions "
          "raised by operations other than the enumerated foreign calls.",
     technique="AST + CFG exception-edge containment, interprocedural caller containment, provenance of error objects, "
-              "loop-pattern termination arguments with dominating guard facts",
+              "loop-pattern termination arguments with dominating guard facts; automaton-based ambiguity (EDA) test of shipped regular expressions",
     ref="DESIGN.md 3/C04"),
  "C07": dict(
     text="Static, all-paths over the dict-based and attribute-based mutators: the dict subclass overrides every "
          "mutating dict method (R07a); every write to raw storage stores the result of a parse call (R07b); every raw "
          "removal is dominated by the immutable / is_required guards (R07c); copy() binds fresh storage (R07d); setter "
          "contexts are forced, handle_error honours force_error, and the parse result is tested against the sentinel "
-         "before it is stored (R07e); the dependants recomputation is reached after every store (R07f). Accessors per field and Final immutability (R07g); keyed lookups in the fields table go through get_field (R07h).",
+         "before it is stored (R07e); the dependants recomputation is reached after every store (R07f). Accessors per field and Final immutability (R07g); keyed lookups in the fields table go through get_field (R07h). Round 5: R05i shared (item assignment converts unknown keys with the recorded addition type).",
     note="Undecided: recomputation after deletion of a dependency; equality of the attribute and key views as values.",
     technique="mutator-table exhaustiveness, provenance typestate (RAW/PARSED) of stored values, dominating guard facts",
     ref="DESIGN.md 3/C07"),
@@ -49,7 +49,7 @@ CLAIMS = {
          "not index past a fallen-through range check (R10a); every context owner passes raise_error() between any "
          "point that may record an error (directly or via helpers sharing its context) and a normal return (R10b); the "
          "max_errors cap follows the append on every returning path with relation >= (R10c); only handle_error "
-         "branches on collect_errors (R10d). Options.__init__ rewrites a parameter only under a test of that parameter or a documented implication (R10f). Round 4: enter() always constructs a child context (R10g); the options merge record holds every passed option whatever its value (R10h); no made-up empty result right after a recorded error (R10i).",
+         "branches on collect_errors (R10d). Options.__init__ rewrites a parameter only under a test of that parameter or a documented implication (R10f). Round 4: enter() always constructs a child context (R10g); the options merge record holds every passed option whatever its value (R10h); no made-up empty result right after a recorded error (R10i). Round 5: option defaults (R10j).",
     note="Undecided: that the collected set names exactly the failing items (value-level).",
     technique="CFG reachability avoiding flush nodes, reaching definitions over exceptional edges, who-may-read rule",
     ref="DESIGN.md 3/C10"),
@@ -57,9 +57,9 @@ CLAIMS = {
     text="Static: every write to the registration list is followed on all paths by a reset of the resolve memo (R16a); "
          "after each front insertion the list is unconditionally stably sorted by the priority component, descending "
          "(R16b); every registration criterion reaches the generated detector with the documented polarity (R16c); "
-         "resolve consults shortcut, memo keyed by the type, the list in order, base, default (R16d). The memo reset follows the list change on every path, and the memo is filled only inside the own scan. Round 4: conversions must not be handed a converter resolved at declaration time (R16f; four sites are known findings F47a-d); no library metaclass overrides __eq__ / __hash__ (R16g).",
+         "resolve consults shortcut, memo keyed by the type, the list in order, base, default (R16d). The memo reset follows the list change on every path, and the memo is filled only inside the own scan. Round 4: conversions must not be handed a converter resolved at declaration time (R16f; four sites are known findings F47a-d); no library metaclass overrides __eq__ / __hash__ (R16g). Round 5: resolve (1280 input classes) and the detector built by register (288) decided as tables by the interpreter (R16d, R16c).",
     note="Scoped to TypeRegistry; Rule.__origin_transformer__ memoisation at declaration time is documented behaviour.",
-    technique="write/invalidate pairing on the CFG, idiom table for order maintenance, guard-fact polarity checks",
+    technique="write/invalidate pairing on the CFG, idiom table for order maintenance, guard-fact polarity checks; finite-domain abstract interpretation (decision tables of resolve and of the generated detector)",
     ref="DESIGN.md 3/C16"),
  "C02": dict(
     text="Static: the reject condition of every strict validator named in Rule.__constraints__, collected from the "
@@ -87,18 +87,18 @@ CLAIMS = {
          "reassigned input, | and ^ return the exact-type guarded input or a conversion of the original input (R09b); "
          "error discipline per branch, no return inside the ^ loop (R09c); operator methods build the combinator they "
          "denote, reflected operators keep operand order, double negation / dedupe / Any / collapse / flatten are "
-         "present (R09d). The exact-type guard is the bare comparison, not a disjunction admitting subclass instances. The union ends with an attempt under exactly the caller's options (R09e); building a combinator never modifies its operands (R09f); no break on the accepting path of ^. Round 4: enter() opens a new layer on every path (R10g) and handle_error records before it raises (R10c), both shared with C10.",
+         "present (R09d). The exact-type guard is the bare comparison, not a disjunction admitting subclass instances. The union ends with an attempt under exactly the caller's options (R09e); building a combinator never modifies its operands (R09f); no break on the accepting path of ^. Round 4: enter() opens a new layer on every path (R10g) and handle_error records before it raises (R10c), both shared with C10. Round 5: combine / combine_by decided as tables by the interpreter (R09d); R10e shared.",
     note="Undecided: 'accepts exactly when at least one accepts' as a relation over inputs.",
-    technique="reaching definitions of the conversion subject per branch, provenance of returned values, guard facts",
+    technique="reaching definitions of the conversion subject per branch, provenance of returned values, guard facts; finite-domain abstract interpretation of combine / combine_by",
     ref="DESIGN.md 3/C09"),
  "C18": dict(
     text="Static: route tested None-exactly, depth inherited, +1 on the no-route branch only, compared with > (R18a); "
          "every context.enter passes a non-None route and enter() chains context/route/options (R18b); data-class "
          "contexts are created with the caller's context along every hop (R18c); each staged retry of the union is "
          "guarded so that it is skipped when the current options already include the stage's flags - truth table over "
-         "the guard - with a final unconditional stage (R18d). Every write to the depth is the inherit form or the single increment and the depth error is raised, not collected (R18a); the creating context's conversion flags must survive the data-class boundary (R18e, known finding F34); no branch re-enters the combinator on its own input (R18f). Only enumerated data-class / function entries create a route-less context chained to a parent (R18g); length rejections precede conversions and no handler retries its own conversion (R18h). Round 4: context factories hand out the class's own options (R18i); a declared __init__ gets a parentless context (R18c, known finding F51); Options as class decorator returns a substitute subclass (R18j, known finding F52); R10b shared.",
+         "the guard - with a final unconditional stage (R18d). Every write to the depth is the inherit form or the single increment and the depth error is raised, not collected (R18a); the creating context's conversion flags must survive the data-class boundary (R18e, known finding F34); no branch re-enters the combinator on its own input (R18f). Only enumerated data-class / function entries create a route-less context chained to a parent (R18g); length rejections precede conversions and no handler retries its own conversion (R18h). Round 4: context factories hand out the class's own options (R18i); a declared __init__ gets a parentless context (R18c, known finding F51); Options as class decorator returns a substitute subclass (R18j, known finding F52); R10b shared. Round 5: depth accounting decided by symbolic evaluation of the constructor over its 8 input shapes (R18a); option default (R18k).",
     note="Undecided: the asymptotic bound as a measured quantity.",
-    technique="None-exactness lint on the route parameter, call-chain argument flow, finite truth-table evaluation of guards",
+    technique="None-exactness lint on the route parameter, call-chain argument flow, finite truth-table evaluation of guards; symbolic evaluation of the depth arithmetic over the constructor's input shapes",
     ref="DESIGN.md 3/C18"),
  "C05": dict(
     text="Static enforcement skeleton of the field contract (not the contract itself): defaults are handed out through "
@@ -107,17 +107,17 @@ CLAIMS = {
          "is_required, nothing stored afterwards, defaults only when not required, is_required honours ignore_required / "
          "always_no_input (R05c); parse_addition is the ordered switch False->ExceedError, falsy->drop, no type->keep, "
          "type->convert (R05d); no_output gates before mapping stores, option precedence in get_default, lookup order "
-         "name->alias->case-insensitive (R05e). A field's own alias_from overrides the alias generator (R05f); parse-time defaults bind defer=False effectively, explicit or via the callee's declared default (R05g); a key that matched a declared field is marked consumed on every path (R06f). Inherited fields merge farthest-base-first (R05h); R05g covers every get_default call site. Round 4: alias tables rebuilt from the current fields (R06h, shared).",
+         "name->alias->case-insensitive (R05e). A field's own alias_from overrides the alias generator (R05f); parse-time defaults bind defer=False effectively, explicit or via the callee's declared default (R05g); a key that matched a declared field is marked consumed on every path (R06f). Inherited fields merge farthest-base-first (R05h); R05g covers every get_default call site. Round 4: alias tables rebuilt from the current fields (R06h, shared). Round 5: get_default is decided as a decision table by the checker's interpreter over its full finite domain (R05a/R05e); addition-type table (R05i); option defaults (R05j); R06e shared.",
     note="Undecided (the core): alias/case tables as values, mode strings, option interactions - needs a reference model "
          "over declarations x inputs.",
-    technique="must-pass-through / dominating guard facts per enforcement point, dead-branch (ordering) check on the switch",
+    technique="must-pass-through / dominating guard facts per enforcement point, dead-branch (ordering) check on the switch; finite-domain abstract interpretation of get_default and parse_addition_type",
     ref="DESIGN.md 3/C05"),
  "C11": dict(
     text="Static policy matrix: every catch-all handler around a conversion that consults an exclude/preserve policy is "
          "partitioned by the policy literal - EXCLUDE warns, never raises and reaches no store / value return; PRESERVE "
          "warns, never raises and reaches a store / return of exactly the raw element that failed; otherwise a ParseError "
          "goes to handle_error; the policy attribute matches the element kind (R11a); required fields raise under EXCLUDE "
-         "(R11b); element parsers apply only operations every dispatched container type supports (R04c). Every policy-guarded conversion runs on a child context from enter() (R11c). Under EXCLUDE parse_value returns get_default(...) (R11d); R10f also runs here. Round 4: the per-field input policy comes from the field's own Field (R11g); R10h shared.",
+         "(R11b); element parsers apply only operations every dispatched container type supports (R04c). Every policy-guarded conversion runs on a child context from enter() (R11c). Under EXCLUDE parse_value returns get_default(...) (R11d); R10f also runs here. Round 4: the per-field input policy comes from the field's own Field (R11g); R10h shared. Round 5: option defaults (R11h); policy facts normalised over == / != and branch arms.",
     note="Undecided: the metamorphic equality with the filtered input (value-level).",
     technique="handler partition by policy atoms, CFG reachability of stores/returns per partition, provenance of the preserved element",
     ref="DESIGN.md 3/C11"),
@@ -152,7 +152,7 @@ CLAIMS = {
          "tuple-surplus gate reads the flag (R12b); each enumerated lossy operation (collection collapse, lenient "
          "decode, datetime/timed text to date with a full midnight comparison, datetime to time, truthiness fallback, "
          "fractional int, list to data class incl. element fast paths) is separated from no_data_loss by a raising test "
-         "or a strict variant (R12c); the union's retry stages only raise flags (R12d).",
+         "or a strict variant (R12c); the union's retry stages only raise flags (R12d). Round 5: option defaults (R12e); guards compared as clauses (De Morgan / comparison complements).",
     note="Undecided (the core): that whatever converts under the flags converts to an equal value without them, and "
          "value preservation, as relations over all (source, target) pairs. Observed, not derivable: for Union[int, str] "
          "and 3.5 no_explicit_cast gives 3 while the lenient result is '3.5'.",
@@ -170,13 +170,13 @@ CLAIMS = {
          "always_no_output agree with is_no_input / is_no_output on every value-independent declaration x mode point of "
          "an enumerated finite domain (R13e); container keywords items / prefixItems / patternProperties (R13f); the JSON "
          "kind returned by every registered encoder matches the primitive announced for its type (R13g); the name "
-         "returned by set_def is the one referenced (R13h). No generator method writes through a class-level container (R13i); R06f also runs here. Round 4: properties / required are keyed by the declared field name and the output view consults every option under which get_default withholds a default (R13c); R06i and R18i shared.",
+         "returned by set_def is the one referenced (R13h). No generator method writes through a class-level container (R13i); R06f also runs here. Round 4: properties / required are keyed by the declared field name and the output view consults every option under which get_default withholds a default (R13c); R06i and R18i shared. Round 5: generate_for_dataclass decided as a document table by the interpreter over 2048 input classes (R13c/R13d).",
     note="Undecided: draft 2020-12 validity of the whole document and validation of arbitrary parser outputs against it "
          "(needs an independent validator over generated values). Known findings F29a/F29b (large / non-finite Decimal "
          "published as string under type number).",
     technique="constant folding of keyword tables against a vocabulary table, guard-fact polarity checks per view, "
               "exhaustive finite-domain evaluation of the field predicates by the checker's own AST evaluator, "
-              "return-kind provenance of encoders, unused-result lint",
+              "return-kind provenance of encoders, unused-result lint; finite-domain abstract interpretation of generate_for_dataclass (document table)",
     ref="DESIGN.md 3/C13"),
  "C14": dict(
     text="Static agreement of the encoder table with the converter table (not equality after the round trip): every "
@@ -200,7 +200,7 @@ CLAIMS = {
          "input-carrying parameter of the parse core, converters or validators (aliases, elements and attributes "
          "followed; copies break the chain) (R19b); every write to state that outlives the call, enumerated from the "
          "runtime entries over the receiver-aware call graph whether locked or not, is one of the listed semantically "
-         "transparent memos (R19c); the per-call context is never stored on a shared object (R19d). Objects the mutating helpers own by table are created for the call at every call site (R19e). Round 4: R16d shared (the registry memo holds positive answers only).",
+         "transparent memos (R19c); the per-call context is never stored on a shared object (R19d). Objects the mutating helpers own by table are created for the call at every call site (R19e). Round 4: R16d shared (the registry memo holds positive answers only). Round 5: R19a uses the get_default table.",
     note="Undecided: aliasing of unconverted containers between input and output (not a mutation during parsing); "
          "equality of outcomes across call histories (needs replay against fresh-process results).",
     technique="provenance of mutator receivers from input parameters, shared-write inventory over the call graph "
@@ -231,7 +231,7 @@ CLAIMS = {
          "(R15c, R15f); the translator recurses only on strict components of its schema argument, never through $ref "
          "resolution, and no call cycle passes the schema on unchanged (R15d); every condition that triggers the name "
          "sanitiser (base-class attributes, names already used, the loop's own un-sanitised keys) is handed to it, "
-         "fields and annotations share the sanitised key and the schema key is kept as alias (R15e). Memo keys of translations mention every argument (R15g); the sanitised name cannot start with an underscore and private-prefix names are sanitised (R15h); presence of const / default is decided by a sentinel, not truthiness (R15i). Round 4: combinator rules R09a-c, R10c, R10g and the context-options rule R18i are shared (anyOf / oneOf / not and nested objects).",
+         "fields and annotations share the sanitised key and the schema key is kept as alias (R15e). Memo keys of translations mention every argument (R15g); the sanitised name cannot start with an underscore and private-prefix names are sanitised (R15h); presence of const / default is decided by a sentinel, not truthiness (R15i). Round 4: combinator rules R09a-c, R10c, R10g and the context-options rule R18i are shared (anyOf / oneOf / not and nested objects). Round 5: get_constraints table; R10e shared.",
     note="Undecided: that every value the built type returns validates against the source schema (needs an independent "
          "validator on generated schemas and instances); keyword combinations Rule.annotate rejects (e.g. maximum "
          "together with exclusiveMaximum, a zero max length) - observed, not derivable by these rules.",
